@@ -45,6 +45,10 @@ def main():
         t3, n3, d3 = seeds_table('r3-')
         s = block(s, 'R3TABLE', t3)
         s = block(s, 'R3SUMMARY', f'**{d3} of {n3} detected**')
+    if glob.glob(os.path.join(HERE, 'seeded', 'r4-*')):
+        t4, n4, d4 = seeds_table('r4-')
+        s = block(s, 'R4TABLE', t4)
+        s = block(s, 'R4SUMMARY', f'**{d4} of {n4} detected**')
     # benign
     bp = os.path.join(HERE, 'benign', 'RESULTS.json')
     if os.path.exists(bp):
